@@ -171,6 +171,15 @@ class AxisTyper:
         for n in ast.walk(self.fi.node):
             if isinstance(n, ast.comprehension) and any(isinstance(x, ast.Name) and x.id == name for x in ast.walk(n.target)):
                 defs.append(n)
+        # a name bound at a fixed position of an Affine unpack: (a, b, c, d, e, f) = (x-scale, _, x-off, _, y-scale, y-off)
+        if len(defs) == 1 and isinstance(defs[0], ast.Assign) and len(defs[0].targets) == 1 and isinstance(defs[0].targets[0], (ast.Tuple, ast.List)) and len(defs[0].targets[0].elts) >= 6:
+            val = defs[0].value
+            if _looks_affine(val, self.fi) or (isinstance(val, ast.Name) and val.id in ("A", "ST")):
+                for i, e in enumerate(defs[0].targets[0].elts[:6]):
+                    if isinstance(e, ast.Name) and e.id == name:
+                        t = {0: X, 2: X, 4: Y, 5: Y}.get(i)
+                        self._derived_memo[name] = t
+                        return t
         if len(defs) != 1 or not isinstance(defs[0], ast.Assign) or len(defs[0].targets) != 1 or not isinstance(defs[0].targets[0], ast.Name):
             return None
         v = defs[0].value
@@ -352,7 +361,7 @@ SINKS: Dict[str, Tuple[List[Optional[str]], Dict[str, str]]] = {
     "GroundControlPoint": ([], {"row": Y, "col": X, "x": X, "y": Y}),
 }
 # Affine.scale(a, b) only when two arguments; Affine(a, b, c, d, e, f)
-PER_AXIS = {"compute_axis_overlap", "snap_grid", "_snap_edge", "_snap_edge_pos", "data_resolution_and_offset", "Bin1D", "from_sample_bin", "_clamp", "_slice", "_sz", "slice_intersect3", "pad_slice"}
+PER_AXIS = {"polyval", "compute_axis_overlap", "snap_grid", "_snap_edge", "_snap_edge_pos", "data_resolution_and_offset", "Bin1D", "from_sample_bin", "_clamp", "_slice", "_sz", "slice_intersect3", "pad_slice"}
 TUPLE_SINKS = {"roi_normalise": (Y, X), "shape_": (Y, X), "GeoBox": (Y, X), "GCPGeoBox": (Y, X), "iyx_": (Y, X), "yx_": (Y, X), "xy_": (X, Y), "ixy_": (X, Y), "locate": (Y, X), "tile_shape": (Y, X)}
 
 
@@ -436,7 +445,10 @@ def rule_axis(prog: Program, modules: Set[str]) -> List[Instance]:
                         out.append(Instance("R-AXIS", cid, BAD, f"`{short(n, 60)}` builds a square resolution from the {t} component alone: the {'Y' if t == X else 'X'} pixel size of the source is discarded (wrong for non-square pixels)", fi.where(n)))
                 # ---------------- T4: per-axis helpers
                 if nm in PER_AXIS:
-                    tags = [(a, ty.tag(a)) for a in list(n.args) + [k.value for k in n.keywords if k.arg not in ("tol",)]]
+                    flat: List[ast.AST] = []
+                    for a in list(n.args) + [k.value for k in n.keywords if k.arg not in ("tol",)]:
+                        flat.extend(a.elts if isinstance(a, (ast.List, ast.Tuple)) else [a])
+                    tags = [(a, ty.tag(a)) for a in flat]
                     tset = {t for _, t in tags if t}
                     if tset:
                         cid = _cid(fi, f"T4:{nm}", n, counter)
